@@ -80,7 +80,9 @@ Base == <<
   \* the root option `regexp` / `rx` (the root is a regular expression over directory names)
   << S1("select"), S1("path"), S1("from"), S1("s.b"), <<"regexp", "rx">>, <<"depth", "maxdepth">>, S1("1") >>,
   \* 34: the same with a multi-byte character in the root word that ends with the comma
-  << <<"select", "">>, S1("path"), S1("from"), S1("café,"), S1("sub/deep"), S1("where"), S1("name"), <<"=", "eq">>, S1("'*.txt'") >>
+  << <<"select", "">>, S1("path"), S1("from"), S1("café,"), S1("sub/deep"), S1("where"), S1("name"), <<"=", "eq">>, S1("'*.txt'") >>,
+  \* 35: arithmetic written without blanks (the letter case of a column name next to an operator character)
+  << S1("select"), S1("name"), S1(","), S1("size*2"), S1(","), S1("size+1"), S1(","), S1("line_count+1"), S1("from"), S1("."), S1("where"), S1("size-1"), <<">", "gt">>, S1("5") >>
 >>
 
 VARIABLES q, slot, alt, casing, split, phase
@@ -97,6 +99,8 @@ CaseForms == [ select |-> <<"SELECT", "Select">>, from |-> <<"FROM", "From">>, w
                symlinks |-> <<"SYMLINKS", "Symlinks">>, archives |-> <<"ARCHIVES", "Archives">>, plus |-> <<"PLUS", "Plus">>, mul |-> <<"MUL", "Mul">>,
                json |-> <<"JSON", "Json">>, csv |-> <<"CSV", "Csv">>, is_dir |-> <<"IS_DIR", "Is_Dir">>, is_file |-> <<"IS_FILE", "Is_File">>,
                hardlinks |-> <<"HARDLINKS", "HardLinks">>, fsize |-> <<"FSIZE", "FSize">>, notlike |-> <<"NOTLIKE", "NotLike">>, regexp |-> <<"REGEXP", "RegExp">> ]
+             @@ ("size*2" :> <<"SIZE*2", "Size*2">>) @@ ("size+1" :> <<"SIZE+1", "sizE+1">>) @@ ("size-1" :> <<"SIZE-1", "Size-1">>)
+             @@ ("line_count+1" :> <<"LINE_COUNT+1", "Line_Count+1">>)
 HasCase(t) == t \in DOMAIN CaseForms
 
 Choose == /\ phase = "start"
